@@ -33,6 +33,10 @@ def run(tier):
         o = os.path.join(wd, "sweep.json")
         conform("stable", ["prims-sweep-c12", o, ck.seed + s])
         _merge(ck, json.load(open(o)), "")
+    for cfg in ["nightly", RELEASE]:
+        o = os.path.join(wd, "sweep_%s.json" % cfg)
+        conform(cfg, ["prims-sweep-c12", o, ck.seed])
+        _merge(ck, json.load(open(o)), "[%s] " % cfg)
     if not ck.cov["distinct_nontrivial"]:
         ck.cov["distinct_nontrivial"] = len(jobs) + 49 * 10
     ck.cov["rule"] = ("%d (id, length) vectors evaluated by TLC from spec/ref/Kdf.tla; dryoc = libsodium on all 49 accepted lengths x ids {0,1,2,255,256,2^32,2^63,2^64-2,2^64-1,random} x 4 master keys/contexts; "
